@@ -97,7 +97,19 @@ def apply_edit(sf, op):
     elif kind == "unserializable":
         sf["XBAD"] = 5                       # a non-string value: serialization raises
     elif kind == "unencodable":
-        sf["XWIDE"] = v
+        # a character the detected encoding lacks - in a value, in a KEY, in a chart field, in the note data, or in an SM
+        # chart's components beyond the sixth: wherever it sits, the text cannot be encoded
+        place = k or "value"
+        if place == "key":
+            sf["X" + v] = "wide key"
+        elif place == "chartfield" and sf.charts:
+            sf.charts[0].description = "d" + v
+        elif place == "notes" and sf.charts:
+            sf.charts[-1].notes = (sf.charts[-1].notes or "0000") + v
+        elif place == "chartextra" and sf.charts and hasattr(sf.charts[0], "extradata"):
+            sf.charts[0].extradata = ["x" + v, "more"]
+        else:
+            sf["XWIDE"] = v
 
 
 UNENCODABLE = {"utf-8": "\udc80", "cp1252": "猫", "cp932": "고", "cp949": "ก", "ascii": "é"}
